@@ -173,6 +173,10 @@ class ExtentAttribute:
         LOGGER.error("ttp:extent on <tt> does not use px units")
         return None
 
+      if not math.isfinite(w) or not math.isfinite(h):
+        LOGGER.error("tts:extent on <tt> is out of range")
+        return None
+
       if not w.is_integer() or not h.is_integer():
         LOGGER.error("Pixel resolution dimensions must be integer values")
 
